@@ -668,8 +668,107 @@ def oracle_par(cfg, ops, steps):
     return out
 
 
+
+# ---------------------------------------------------------------- self-consistency of derived observations
+def _bvals(o):
+    return [bytes.fromhex(v) for v in vals_of(o)]
+
+
+def oracle_root(cfg, ops, steps):
+    """C02 / C03: the root a clean collection reports is the SSZ hash_tree_root of the contents IT shows (computed from
+    scratch by the reference implementation of the specification)"""
+    out = []
+    for st, op in zip(steps, ops):
+        p = op.split()
+        if p[0] not in ('hash', 'par_hash') or not st.result.startswith('ok:') or st.result == 'ok:-':
+            continue
+        o = st.O.get(p[1])
+        if o is None or o.get('vals') in ('big', None) or o.get('pend') != '0':
+            continue
+        vs = _bvals(o)
+        want = (ssz_ref.hash_tree_root_list if o['kind'] == 'L' else ssz_ref.hash_tree_root_vector)(cfg.kind if cfg.kind != 'fu64' else 'u64', cfg.n, vs).hex()
+        if st.result[3:] != want:
+            out.append(Finding(st.n, '`%s`: root %s..., but the SSZ hash_tree_root of the %d elements it shows is %s...' % (op[:40], st.result[3:19], len(vs), want[:16])))
+    return out
+
+
+def oracle_eq(cfg, ops, steps):
+    """C06: `==` between two clean collections of one type holds exactly when they show equal contents"""
+    out = []
+    for st, op in zip(steps, ops):
+        p = op.split()
+        if p[0] != 'eq' or st.result not in ('ok:true', 'ok:false'):
+            continue
+        a, b = st.O.get(p[1]), st.O.get(p[2])
+        if not a or not b or a['kind'] != b['kind'] or a.get('pend') != '0' or b.get('pend') != '0' or 'big' in (a.get('vals'), b.get('vals')):
+            continue
+        same = a.get('vals') == b.get('vals') and a.get('len') == b.get('len')
+        if (st.result == 'ok:true') != same:
+            out.append(Finding(st.n, '`%s` answers %s although the two collections show %s contents' % (op, st.result[3:], 'equal' if same else 'different')))
+    return out
+
+
+def oracle_ssz(cfg, ops, steps):
+    """C12: the encoding is the canonical serialization of the contents the collection shows, the reported length is
+    the number of bytes, the static size declarations fit; a decoder accepts exactly the canonical encodings of in-bounds
+    collections and then shows the decoded elements, and otherwise fails leaving the register alone"""
+    out = []
+    kind = cfg.kind if cfg.kind != 'fu64' else 'u64'
+    prev = None
+    for st, op in zip(steps, ops):
+        p = op.split()
+        if p[0] == 'ssz_enc' and st.result.startswith('ok:'):
+            o = st.O.get(p[1])
+            if o is not None and o.get('vals') not in ('big', None):
+                data = ssz_ref.serialize(kind, _bvals(o))
+                size = ssz_ref.SIZE[kind]
+                fixed = (1, size * cfg.n) if (o['kind'] == 'V' and size is not None) else (0, 4)
+                want = 'ok:%s|%d|f=%d:%d' % (data.hex() if data else '.', len(data), fixed[0], fixed[1])
+                if st.result != want:
+                    out.append(Finding(st.n, '`%s`: got `%s`, the canonical form of what it shows is `%s`' % (op, st.result[:100], want[:100])))
+        if p[0] in ('ssz_list', 'ssz_vec') and st.result in ('ok', 'err:decode'):
+            data = b'' if p[2] == '.' else bytes.fromhex(p[2])
+            dec = (ssz_ref.deserialize_list if p[0] == 'ssz_list' else ssz_ref.deserialize_vector)(kind, cfg.n, data)
+            if (dec is not None) != (st.result == 'ok'):
+                out.append(Finding(st.n, '`%s`: %s, but the bytes are %s' % (op[:60], st.result, 'not the canonical encoding of an in-bounds collection' if dec is None else 'a canonical encoding')))
+            elif dec is not None:
+                o = st.O.get(p[1])
+                if o is not None and o.get('vals') != 'big' and _bvals(o) != list(dec):
+                    out.append(Finding(st.n, '`%s`: decoded collection shows other elements than the bytes encode' % op[:60]))
+            elif prev is not None and prev.O.get(p[1]) != st.O.get(p[1]):
+                out.append(Finding(st.n, '`%s` failed but changed the register' % op[:60]))
+        prev = st
+    return out
+
+
+def oracle_serde(cfg, ops, steps):
+    """C13: the serde form is the sequence of elements the collection shows; a sequence is accepted exactly within the
+    bounds and then the collection shows it"""
+    out = []
+    prev = None
+    for st, op in zip(steps, ops):
+        p = op.split()
+        if p[0] == 'serde_ser' and st.result.startswith('ok:'):
+            o = st.O.get(p[1])
+            if o is not None and o.get('vals') not in ('big', None) and st.result[3:] != o['vals']:
+                out.append(Finding(st.n, '`%s`: serialised `%s`, the collection shows `%s`' % (op, st.result[3:80], o['vals'][:80])))
+        if p[0] in ('serde_list', 'serde_vec') and st.result in ('ok', 'err:serde'):
+            vs = [] if p[2] == '-' else p[2].split(',')
+            ok = len(vs) <= cfg.n if p[0] == 'serde_list' else len(vs) == cfg.n
+            if ok != (st.result == 'ok'):
+                out.append(Finding(st.n, '`%s %s <%d elements>`: %s with N = %d' % (p[0], p[1], len(vs), st.result, cfg.n)))
+            elif ok:
+                o = st.O.get(p[1])
+                if o is not None and o.get('vals') != 'big' and o['vals'] != (p[2] if vs else '-'):
+                    out.append(Finding(st.n, '`%s`: the collection does not show the sequence it was given' % p[0]))
+            elif prev is not None and prev.O.get(p[1]) != st.O.get(p[1]):
+                out.append(Finding(st.n, '`%s` failed but changed the register' % p[0]))
+        prev = st
+    return out
+
+
 ORACLES = {
     'wellformed': oracle_wellformed, 'error_preserves': oracle_error_preserves, 'memo': oracle_memo,
     'canonical': oracle_canonical, 'sharing': oracle_sharing, 'cost': oracle_cost, 'builder': oracle_builder,
-    'isolation': oracle_isolation, 'unchanged': oracle_unchanged, 'capacity': oracle_capacity, 'suffix': oracle_suffix, 'par': oracle_par,
+    'isolation': oracle_isolation, 'unchanged': oracle_unchanged, 'root': oracle_root, 'eq': oracle_eq, 'ssz': oracle_ssz, 'serde': oracle_serde, 'capacity': oracle_capacity, 'suffix': oracle_suffix, 'par': oracle_par,
 }
